@@ -262,7 +262,14 @@ func runC13Smart(t *fw.T) {
 		}
 	})
 	want := prog.S()
-	rd := gen.Render(prog, r, gen.EmitOpts{Quote: 2}, gen.Layout{Semi: 0, Space: 1, StmtNL: 1, Smart: true})
+	// half of the texts carry trailing and own-line `//` comments and blank lines: the line break that ends a comment
+	// is a line break like any other
+	lay := gen.Layout{Semi: 0, Space: 1, StmtNL: 1, Smart: true}
+	if r.IntN(2) == 0 {
+		lay.Comment, lay.Blank = 0.35, 0.15
+		t.Count("smart_texts_with_comments", 1)
+	}
+	rd := gen.Render(prog, r, gen.EmitOpts{Quote: 2}, lay)
 	t.Count("smart_cuts", rd.SmartCuts)
 	// sanity of the case: with ';' inserted the text is the tree for the reference parser and for default mode
 	semi := rd.WithSemis()
@@ -371,8 +378,28 @@ func runC13Reconfigure(t *fw.T) {
 	var built []*parser.Parser
 	ok := t.Guard("build", wit, func() {
 		pb := parser.NewBuilder(lexer.NewBuilder())
+		cur := Mode{}
 		for _, m := range modes {
-			pb.WithTolerantMode(m.Tolerant).WithSmartSemicolon(m.Smart)
+			// reconfigure the way users do: only the option that changes (in either order when both change), or both
+			// setters regardless
+			switch x := r.IntN(4); {
+			case x == 0:
+				pb.WithTolerantMode(m.Tolerant).WithSmartSemicolon(m.Smart)
+			case x == 1:
+				pb.WithSmartSemicolon(m.Smart).WithTolerantMode(m.Tolerant)
+			default:
+				first := r.IntN(2) == 0
+				if first && m.Tolerant != cur.Tolerant {
+					pb.WithTolerantMode(m.Tolerant)
+				}
+				if m.Smart != cur.Smart {
+					pb.WithSmartSemicolon(m.Smart)
+				}
+				if !first && m.Tolerant != cur.Tolerant {
+					pb.WithTolerantMode(m.Tolerant)
+				}
+			}
+			cur = m
 			built = append(built, pb.Build(src))
 		}
 	})
